@@ -6,7 +6,7 @@ from core import Out
 ID = 'C08'
 LEVEL = 'exploration'
 WHICH = 'C08'
-RULE = ('same schedule/death space as C07 (tape-driven simulated workers behind the real Pool.run) x retry {on, off} x return_results {on, off}; '
+RULE = ('same schedule/death space as C07 (tape-driven simulated workers behind the real Pool.run) x retry {on, off} x return_results {on, off}, plus multi-run histories (runs / restart_workers / kills / add_worker on one pool); '
         'the oracle is computed from the scheduler event log: who was handed what, who answered what, who died when. '
         'Non-trivial = a death or a refusal occurred, or extra>=1 with >=2 workers; distinct = distinct (configuration, executed event trace).')
 ASSUMPTIONS = list(_c07.ASSUMPTIONS) + ['a PoolError raised while a live worker exists is only judged when that worker would accept every unfinished input']
@@ -21,11 +21,20 @@ REQUIRED = {
 }
 examples = _c07.examples
 shards = _c07.shards
-simplify = poolcases.simplify
+def simplify(case):
+    if 'history' in case:
+        yield from poolcases.simplify_history(case)
+    else:
+        yield from poolcases.simplify(case)
+
+
+_HIST_SYMPTOMS = ('poolerror_with_live_worker', 'foreign_value', 'duplicate')
 
 
 def strategy(tier):
-    return poolcases.config(retry_choices=(True, False), rr_choices=(True, False))
+    from hypothesis import strategies as st
+    return st.one_of(poolcases.config(retry_choices=(True, False), rr_choices=(True, False)), poolcases.config(retry_choices=(True, False), rr_choices=(True, False)),
+                     poolcases.config(retry_choices=(True, False), rr_choices=(True, False)), poolcases.history_config())
 
 
 _last = {}
@@ -65,6 +74,12 @@ def exhaustive(tier, shard, nshards):
 
 
 def run_case(case, ctx):
+    if 'history' in case:
+        # several runs on one pool with restarts / kills in between: PoolError soundness and genuineness of results per run
+        out = poolcases.run_history(case)
+        out.violations = [v for v in out.violations if v['symptom'] in _HIST_SYMPTOMS]
+        out.label('history', 'death' if 'kill_between_runs' in out.labels else 'history_no_kill')
+        return out
     dfs = bool(case.get('dfs'))
     out, sim = poolcases.run(case, WHICH, dfs=dfs)
     if dfs:
